@@ -1,6 +1,8 @@
 package main
 
 import (
+	_ "embed"
+	"encoding/json"
 	"fmt"
 	"go/ast"
 	"go/token"
@@ -35,6 +37,7 @@ type Program struct {
 	fileOf    map[string]*ast.File
 	sccp      *SCCP
 	own       *Own
+	Renames   []string // anchors located by signature after a rename (see Func)
 }
 
 // Load type-checks and builds SSA for every package of the module under dir.
@@ -191,13 +194,161 @@ func (p *Program) Pkg(rel string) *ssa.Package {
 // AnyPkg returns any loaded SSA package by full path.
 func (p *Program) AnyPkg(path string) *ssa.Package { return p.SSA[path] }
 
-// Func returns the package-level function pkg.name, or nil.
+// Func returns the package-level function pkg.name, or nil.  When the name is gone but the recorded table of
+// signatures (anchors.json, written by -gen-anchors from the tree the rules were confirmed on) knows it, a function
+// of the same package with the identical signature and a name the table has never seen is taken to be the renamed
+// anchor — provided there is exactly one such candidate.  The substitution is recorded in Renames.
 func (p *Program) Func(pkg, name string) *ssa.Function {
 	sp := p.Pkg(pkg)
 	if sp == nil {
 		return nil
 	}
-	return sp.Func(name)
+	if f := sp.Func(name); f != nil {
+		return f
+	}
+	want, ok := anchorSigs[pkg+"."+name]
+	if !ok {
+		return nil
+	}
+	var cands []*ssa.Function
+	for _, m := range sp.Members {
+		f, isFn := m.(*ssa.Function)
+		if !isFn || f.Blocks == nil {
+			continue
+		}
+		if _, known := anchorSigs[pkg+"."+f.Name()]; known {
+			continue
+		}
+		if sigString(f) == sigOf(want) {
+			cands = append(cands, f)
+		}
+	}
+	if f := pickRenamed(want, cands); f != nil {
+		p.noteRename(pkg+"."+name, pkg+"."+f.Name())
+		return f
+	}
+	return nil
+}
+
+func (p *Program) noteRename(from, to string) {
+	msg := "anchor " + from + " not found; using " + to + " (same package, identical signature, new name)"
+	for _, r := range p.Renames {
+		if r == msg {
+			return
+		}
+	}
+	p.Renames = append(p.Renames, msg)
+}
+
+// calleeNames: the names of the functions and methods fn calls (its own closures included) — a fingerprint that
+// survives renaming fn itself.
+func calleeNames(fn *ssa.Function) []string {
+	set := map[string]bool{}
+	var walk func(f *ssa.Function)
+	walk = func(f *ssa.Function) {
+		for _, b := range f.Blocks {
+			for _, ins := range b.Instrs {
+				if c, ok := ins.(ssa.CallInstruction); ok {
+					cc := c.Common()
+					switch {
+					case cc.IsInvoke():
+						set["."+cc.Method.Name()] = true
+					case cc.StaticCallee() != nil:
+						set[cc.StaticCallee().Name()] = true
+					}
+				}
+			}
+		}
+		for _, a := range f.AnonFuncs {
+			walk(a)
+		}
+	}
+	walk(fn)
+	var out []string
+	for k := range set {
+		out = append(out, k)
+	}
+	sort.Strings(out)
+	return out
+}
+
+func fingerprint(fn *ssa.Function) string {
+	return sigString(fn) + "|" + strings.Join(calleeNames(fn), ",")
+}
+
+// pickRenamed chooses among same-signature, new-name candidates: a single one is taken as is; otherwise the one whose
+// callee set is clearly the most similar to the recorded one.
+func pickRenamed(want string, cands []*ssa.Function) *ssa.Function {
+	if len(cands) == 1 {
+		return cands[0]
+	}
+	if len(cands) == 0 {
+		return nil
+	}
+	rec := map[string]bool{}
+	if i := strings.Index(want, "|"); i >= 0 {
+		for _, n := range strings.Split(want[i+1:], ",") {
+			if n != "" {
+				rec[n] = true
+			}
+		}
+	}
+	best, second := -1.0, -1.0
+	var bestF *ssa.Function
+	for _, c := range cands {
+		names := calleeNames(c)
+		inter := 0
+		for _, n := range names {
+			if rec[n] {
+				inter++
+			}
+		}
+		union := len(rec) + len(names) - inter
+		sim := 0.0
+		if union > 0 {
+			sim = float64(inter) / float64(union)
+		}
+		if sim > best {
+			second, best, bestF = best, sim, c
+		} else if sim > second {
+			second = sim
+		}
+	}
+	if best >= 0.4 && best-second >= 0.2 {
+		return bestF
+	}
+	return nil
+}
+
+func sigOf(want string) string {
+	if i := strings.Index(want, "|"); i >= 0 {
+		return want[:i]
+	}
+	return want
+}
+
+// sigString renders a signature by its parameter and result types only (parameter names do not matter).
+func sigString(f *ssa.Function) string {
+	q := func(pk *types.Package) string { return pk.Name() }
+	var b strings.Builder
+	tuple := func(t *types.Tuple) {
+		b.WriteByte('(')
+		for i := 0; i < t.Len(); i++ {
+			if i > 0 {
+				b.WriteString(", ")
+			}
+			if i == t.Len()-1 && f.Signature.Variadic() && t == f.Signature.Params() {
+				b.WriteString("...")
+			}
+			b.WriteString(types.TypeString(t.At(i).Type(), q))
+		}
+		b.WriteByte(')')
+	}
+	b.WriteString("func")
+	tuple(f.Signature.Params())
+	b.WriteByte(' ')
+	tuple(f.Signature.Results())
+	return b.String()
 }
 
 // NamedType returns the named type pkg.name, or nil.
@@ -220,7 +371,74 @@ func (p *Program) Method(pkg, typ, name string) *ssa.Function {
 	if n == nil {
 		return nil
 	}
-	return p.MethodOf(n, name)
+	if f := p.MethodOf(n, name); f != nil {
+		return f
+	}
+	// renamed method: same receiver type, identical signature, a name the recorded table has never seen
+	want, ok := anchorSigs[pkg+"."+typ+"."+name]
+	if !ok {
+		return nil
+	}
+	var cands []*ssa.Function
+	seen := map[string]bool{}
+	for _, tt := range []types.Type{n, types.NewPointer(n)} {
+		ms := p.Prog.MethodSets.MethodSet(tt)
+		for i := 0; i < ms.Len(); i++ {
+			mn := ms.At(i).Obj().Name()
+			if seen[mn] {
+				continue
+			}
+			if _, known := anchorSigs[pkg+"."+typ+"."+mn]; known {
+				continue
+			}
+			f := p.Prog.MethodValue(ms.At(i))
+			if f == nil || f.Synthetic != "" && f.Blocks == nil {
+				continue
+			}
+			if sigString(f) == sigOf(want) {
+				seen[mn] = true
+				cands = append(cands, f)
+			}
+		}
+	}
+	if f := pickRenamed(want, cands); f != nil {
+		p.noteRename(pkg+"."+typ+"."+name, pkg+"."+typ+"."+f.Name())
+		return f
+	}
+	return nil
+}
+
+// GenAnchors writes the signature table: every package-level function and method of the module.
+func (p *Program) GenAnchors() map[string]string {
+	out := map[string]string{}
+	for path, sp := range p.SSA {
+		if !strings.HasPrefix(path, Mod) {
+			continue
+		}
+		rel := strings.TrimPrefix(strings.TrimPrefix(path, Mod), "/")
+		for _, m := range sp.Members {
+			switch x := m.(type) {
+			case *ssa.Function:
+				if x.Blocks != nil {
+					out[rel+"."+x.Name()] = fingerprint(x)
+				}
+			case *ssa.Type:
+				nt, ok := x.Type().(*types.Named)
+				if !ok {
+					continue
+				}
+				for _, tt := range []types.Type{nt, types.NewPointer(nt)} {
+					ms := p.Prog.MethodSets.MethodSet(tt)
+					for i := 0; i < ms.Len(); i++ {
+						if f := p.Prog.MethodValue(ms.At(i)); f != nil {
+							out[rel+"."+x.Name()+"."+ms.At(i).Obj().Name()] = fingerprint(f)
+						}
+					}
+				}
+			}
+		}
+	}
+	return out
 }
 
 // MethodOf looks name up in the method sets of t and *t.
@@ -359,3 +577,13 @@ func Deref(t types.Type) types.Type {
 func (p *Program) EnclosingFuncDecl(fn *ssa.Function) ast.Node {
 	return fn.Syntax()
 }
+
+//go:embed anchors.json
+var anchorsJSON []byte
+
+// anchorSigs: "pkg.Func" / "pkg.Type.Method" -> signature, for the tree the rules were confirmed on.
+var anchorSigs = func() map[string]string {
+	m := map[string]string{}
+	_ = json.Unmarshal(anchorsJSON, &m)
+	return m
+}()
